@@ -282,6 +282,31 @@ def r4_shape_plumbing(ctx):
                 sites += 1
                 shp = u(c.args[1])
                 ctx.ob(f.where, f"{nm}(...) is given the operand's own shape", shp in (f"{p}._shape", f"{p}.shape"), f"shape argument: {shp}")
+    # decode: a result that is NOT wrapped with the operand's ragged shape must keep the operand's own (possibly n-d) shape: _decode is element-wise, so
+    # its argument must be the operand's codes as they are, not a flattened view of them
+    f = ix.func(EA_MOD, "OneToOneEncoding.decode")
+    p = f.params[1]
+    env = local_env(f.node)
+    nflat = 0
+    for r in body_walk(f.node):
+        if not isinstance(r, ast.Return) or r.value is None:
+            continue
+        e = inline_locals(r.value, env)
+        if isinstance(e, ast.Call) and u(e.func) in ("EncodedRaggedArray", "RaggedArray"):
+            continue
+        inner = e.args[0] if isinstance(e, ast.Call) and u(e.func) == "EncodedArray" and e.args else e
+        if not (isinstance(inner, ast.Call) and u(inner.func) == "self._decode" and len(inner.args) == 1):
+            raise Unrecognised(f"{f.where}: decode returns `{u(e)[:80]}`")
+        arg = inner.args[0]
+        nflat += 1
+        flat = any(isinstance(x, ast.Call) and isinstance(x.func, ast.Attribute) and x.func.attr in ("ravel", "flatten") for x in ast.walk(arg)) or \
+            any(isinstance(x, ast.Call) and isinstance(x.func, ast.Attribute) and x.func.attr == "reshape" for x in ast.walk(arg))
+        keep = u(arg) in (p, f"{p}.raw()", f"{p}.data", f"np.atleast_1d({p})", f"np.asarray({p})", f"np.asanyarray({p})")
+        if not flat and not keep:
+            raise Unrecognised(f"{f.where}: decode passes `{u(arg)}` to _decode")
+        ctx.ob(f.where, "decode of a non-ragged operand keeps the operand's shape: the codes go to the element-wise _decode as they are, not flattened", keep and not flat,
+               u(e)[:100], key=f"C06-R4|decode-shape|{u(arg)}")
+    ctx.floor("non-ragged returns of OneToOneEncoding.decode", nflat, 3)
     f = ix.func(EA_MOD, "OneToOneEncoding._encode_list_of_strings")
     p = f.params[1]
     cs = [c for c in func_calls(f.node) if u(c.func) == "EncodedRaggedArray"]
@@ -368,23 +393,56 @@ def r6_encoding_identity(ctx):
     v = final[0].value
     if isinstance(v, ast.Call) and u(v.func) == "bool" and len(v.args) == 1:
         v = v.args[0]
-    c = sym.canon(v)
+    # the forms in which "same letters in the same order" can be decided: an element-wise comparison of two ORDERED tables of the two encodings
+    # (np.all(A == B), or all(a == b for a, b in zip(A, B))), or == on the two lists of letters.  _mask is unordered (same for permuted alphabets).
+    ORDERED = {"_alphabet": True, "_raw_alphabet": False, "_lookup": True}     # table -> needs _initialize()
+    needs_len = False
+    cmp_tables = None
+    vv = v
+    if isinstance(vv, ast.Call) and u(vv.func) in ("np.all", "all", "np.array_equal") and vv.args:
+        a0 = vv.args[0]
+        if u(vv.func) == "np.array_equal" and len(vv.args) == 2:
+            cmp_tables = (vv.args[0], vv.args[1])
+        elif isinstance(a0, ast.Compare) and len(a0.ops) == 1 and isinstance(a0.ops[0], ast.Eq):
+            cmp_tables = (a0.left, a0.comparators[0])
+            needs_len = True          # == on two arrays of different length broadcasts or raises
+        elif isinstance(a0, ast.GeneratorExp) and len(a0.generators) == 1 and isinstance(a0.generators[0].iter, ast.Call) and u(a0.generators[0].iter.func) == "zip" \
+                and len(a0.generators[0].iter.args) == 2 and isinstance(a0.elt, ast.Compare) and len(a0.elt.ops) == 1 and isinstance(a0.elt.ops[0], ast.Eq) \
+                and isinstance(a0.generators[0].target, ast.Tuple) and len(a0.generators[0].target.elts) == 2 and not a0.generators[0].ifs \
+                and {u(a0.elt.left), u(a0.elt.comparators[0])} == {u(e) for e in a0.generators[0].target.elts}:
+            cmp_tables = tuple(a0.generators[0].iter.args)
+            needs_len = True          # zip stops at the shorter alphabet
+    elif isinstance(vv, ast.Compare) and len(vv.ops) == 1 and isinstance(vv.ops[0], ast.Eq):
+        cmp_tables = (vv.left, vv.comparators[0])
     tables = {a.attr for a in ast.walk(v) if isinstance(a, ast.Attribute) and a.attr.startswith("_")}
-    if c == sym.canon(sym.parse_expr(f"np.all(self._alphabet == {o}._alphabet)")):
+    attr = None
+    if cmp_tables is not None:
+        l, r = cmp_tables
+        if isinstance(l, ast.Attribute) and isinstance(r, ast.Attribute) and l.attr == r.attr and {u(l.value), u(r.value)} == {"self", o}:
+            attr = l.attr
+    if attr in ORDERED:
+        if attr == "_raw_alphabet" and isinstance(vv, ast.Compare):
+            needs_len = False         # == on two lists compares the lengths itself
+        if attr == "_lookup":
+            needs_len = False         # always 256 entries
         ok = True
-        lg = [t for t in body_walk(eq.node) if isinstance(t, ast.If) and sym.canon(t.test) == sym.canon(sym.parse_expr(f"len(self._alphabet) != len({o}._alphabet)"))
-              and any(isinstance(r, ast.Return) and isinstance(r.value, ast.Constant) and r.value.value is False for r in t.body)]
-        ctx.ob(eq.where, "alphabets of different length are unequal (decided before the element-wise comparison, which would broadcast)", bool(lg), "", key="C06-R6|eq-length")
-    elif c == sym.canon(sym.parse_expr(f"np.all(self._lookup == {o}._lookup)")):
-        ok = True
+        if needs_len:
+            lg = [t for t in body_walk(eq.node) if isinstance(t, ast.If) and any(sym.canon(t.test) == sym.canon(sym.parse_expr(f"len(self.{x}) != len({o}.{x})")) for x in ("_alphabet", "_raw_alphabet"))
+                  and any(isinstance(r, ast.Return) and isinstance(r.value, ast.Constant) and r.value.value is False for r in t.body)]
+            lg2 = [t for t in body_walk(eq.node) if isinstance(t, ast.If) and sym.canon(t.test) == sym.canon(sym.parse_expr(f"self._alphabet_size != {o}._alphabet_size"))
+                   and any(isinstance(r, ast.Return) and isinstance(r.value, ast.Constant) and r.value.value is False for r in t.body)]
+            ctx.ob(eq.where, "alphabets of different length are unequal (decided before the element-wise comparison, which would broadcast or stop at the shorter one)", bool(lg or lg2), u(v), key="C06-R6|eq-length")
     elif tables and tables <= {"_mask"}:
+        ok = False
+    elif attr == "_alphabet_size":
         ok = False
     else:
         raise Unrecognised(f"{eq.where}: equality of alphabet encodings is decided by `{u(v)}`")
     ctx.ob(eq.where, "two alphabet encodings are equal only if they assign the same code to every letter (same letters in the same order); the table of accepted "
            "bytes is the same for permuted alphabets and cannot decide it", ok, u(v), key="C06-R6|eq-ordered")
-    inits = [e for e in body_walk(eq.node) if isinstance(e, ast.Expr) and isinstance(e.value, ast.Call) and u(e.value.func).endswith("._initialize")]
-    ctx.ob(eq.where, "both encodings are initialised before their tables are compared", {u(e.value.func) for e in inits} >= {"self._initialize", f"{o}._initialize"}, "", key="C06-R6|eq-init")
+    if ok and ORDERED.get(attr):
+        inits = [e for e in body_walk(eq.node) if isinstance(e, ast.Expr) and isinstance(e.value, ast.Call) and u(e.value.func).endswith("._initialize")]
+        ctx.ob(eq.where, "both encodings are initialised before their tables are compared", {u(e.value.func) for e in inits} >= {"self._initialize", f"{o}._initialize"}, "", key="C06-R6|eq-init")
     from ..cfg import CFG as _CFG
     from ..pend import edge_facts as _ef
     ge = _CFG(eq.node)
